@@ -36,7 +36,10 @@ TRUSTED = [
 RULE = ('names of 0..8 components, types from {1,2,8,32,50,52,54,56,58,252,253,65535,random 1..65535}, value bytes weighted to '
         '/ % = . ~ _ - 0x00 0x7f-0xff, typed numbers at the 1/2/4/8-byte width boundaries, every one of the 256 byte values as a '
         'single-byte component; a URI parsing stream (valid URIs mutated: truncated escapes, stray = % -, upper/lower-case hex, '
-        'non-ASCII, typed prefixes with odd numbers) compared on accept/reject class and value; arbitrary text through escape_str; '
+        'non-ASCII, typed prefixes with odd numbers) compared on accept/reject class and value; arbitrary text through escape_str '
+        '(every Latin-1 supplement character, the code points on the UTF-8 width boundaries U+007F/80, U+07FF/800, U+D7FF/E000, '
+        'U+FFFF/10000, U+10FFFF, random scalars of every width); second use: every constructor asked twice with the caller '
+        'overwriting the first (mutable) result or its argument buffer in between; '
         'typed numbers 0..2^64-1 and just outside; well-formed and damaged Name wires; pairs of related names for is_prefix and for '
         'byte order versus an independent (type, length, value) comparison; names whose total Length and components whose '
         'own Length sit on 252/253 and 65535/65536 (1- and 3-byte Type numbers); oracle-only observations on the other '
@@ -288,7 +291,18 @@ def _rand_uri(rng):
     return ''.join(s)
 
 
+# code points on the boundaries of the UTF-8 helper (str.encode): last 1-byte / first and last 2-byte / first 3-byte /
+# around the surrogate gap / last 3-byte / first and last 4-byte scalar; Latin-1 supplement ends
+UTF8_EDGES = ['\x7f', '\x80', '\xa0', '\xbf', '\xc0', '\xdf', '\xff', '\u0100', '\u07ff', '\u0800', '\u0fff', '\u1000',
+              '\ud7ff', '\ue000', '\ufffd', '\uffff', '\U00010000', '\U0003ffff', '\U00040000', '\U000fffff', '\U00100000',
+              '\U0010ffff']
+
+
 def _rand_text(rng):
+    if rng.random() < 0.25:
+        return ''.join(rng.choice(UTF8_EDGES + ['a', '/', '%', ' ']) if rng.random() < 0.8 else chr(rng.choice(
+            [rng.randrange(0x80, 0x100), rng.randrange(0x100, 0x800), rng.randrange(0x800, 0xd800), rng.randrange(0xe000, 0x10000),
+             rng.randrange(0x10000, 0x110000)])) for _ in range(rng.randint(1, 4)))
     alpha = ['a', 'Z', '0', '/', '%', '=', '.', '~', '_', '-', ' ', '\x00', '\x7f', 'é', 'Σ', '中', '\U0001f600', '١', '+', ':', '?', '#']
     return ''.join(rng.choice(alpha) for _ in range(rng.randint(0, 6)))
 
@@ -375,6 +389,12 @@ def cases(rng, tier):
         yield {'k': 'uri', 's': s}
     for s in ODD_NAMES:
         yield {'k': 'uri', 's': s}
+    # raw non-ASCII text through the escaping helper: every Latin-1 supplement character, the UTF-8 width boundaries
+    for b0 in range(0x80, 0x100, 8):
+        yield {'k': 'text', 's': ''.join(chr(c) for c in range(b0, b0 + 8))}
+    for ch in UTF8_EDGES:
+        yield {'k': 'text', 's': ch}
+        yield {'k': 'uri', 's': '/a' + ch + '/' + ch + 'b/8=' + ch}
     yield {'k': 'name', 'comps': []}
     yield {'k': 'name', 'comps': [[8, '']]}
     yield {'k': 'name', 'comps': [[8, '61'], [8, '']]}
@@ -471,6 +491,32 @@ def _kinded(cs, uris, shift):
     return out
 
 
+def _scribble(x):
+    """what a caller may do with a result it owns: overwrite a mutable component / list in place"""
+    if isinstance(x, list):
+        for c in x:
+            _scribble(c)
+        x.clear()
+    elif isinstance(x, bytearray):
+        x[:] = b'\xaa' * (len(x) + 1)
+    elif isinstance(x, memoryview) and not x.readonly:
+        x[:] = b'\xaa' * len(x)
+
+
+def _snap(x):
+    return _nm([bytes(c) for c in x]) if isinstance(x, list) else _hx(x)
+
+
+def _fresh(R, label, fn):
+    """second use: the same conversion asked twice, the caller having overwritten the first (mutable) result in between"""
+    def go():
+        r1 = fn()
+        want = _snap(r1)
+        _scribble(r1)
+        return 'ok=same' if _snap(fn()) == want else 'ok=changed'
+    R.side(label, go)
+
+
 def _name_side(R, cs, w, U, S, uris):
     """oracle-only observations on the other front-ends of the same conversions: to_bytes / from_bytes, decode and encode
     at a non-zero offset, encoded_length, every accepted container / element type for normalize, non-strict arguments of
@@ -490,6 +536,23 @@ def _name_side(R, cs, w, U, S, uris):
         R.side('fhex%d' % i, lambda: 'ok=' + _hx(Component.from_hex(v.hex(), t)))
         R.side('ts_mv%d' % i, lambda: 'ok=' + _tx(Component.to_str(memoryview(c))))
         R.side('tc_ba%d' % i, lambda: 'ok=' + _tx(Component.to_canonical_uri(bytearray(c))))
+    if n:
+        t0, v0 = Component.get_type(cs[0]), bytes(Component.get_value(cs[0]))
+        _fresh(R, 'fresh_fb', lambda: Component.from_bytes(v0, t0))
+        _fresh(R, 'fresh_fhex', lambda: Component.from_hex(v0.hex(), t0))
+
+        def arg_reused():
+            buf = bytearray(v0)
+            c = Component.from_bytes(buf, t0)
+            buf[:] = b'\x55' * len(buf)         # the caller reuses its buffer after the call
+            return 'ok=' + _hx(c)
+        R.side('fb_arg_reused', arg_reused)
+    if U is not None:
+        _fresh(R, 'fresh_nfs', lambda: Name.from_str(U))
+        _fresh(R, 'fresh_nrs', lambda: Name.normalize(U))
+    if all(u is not None for u in uris):
+        _fresh(R, 'fresh_nrm', lambda: Name.normalize(list(uris)))
+    _fresh(R, 'fresh_enc', lambda: Name.encode([bytes(c) for c in cs]))
     if w is not None:
         R.side('tb_wire', lambda: 'ok=' + _hx(Name.to_bytes(bytearray(w))))
         R.side('fb_wire', lambda: nm(Name.from_bytes(w)))
@@ -600,6 +663,9 @@ def run_impl(case):
                 R.do('fs:' + _tx(u), 'fs_tc')
             if s2 is not None:
                 R.do('fs:' + _tx(s2), 'fs_ts')
+        Name, Component = _imports()
+        _fresh(R, 'fresh_fs', lambda: Component.from_str(s))
+        _fresh(R, 'fresh_nfs', lambda: Name.from_str(s))
         n = R.do('nfs:' + _tx(s), 'nfs')
         R.do('nrs:' + _tx(s), 'nrs')
         if s and '/' not in s:
@@ -623,6 +689,8 @@ def run_impl(case):
         R.do('nrm:s' + _tx(s), 'nrm1')
         if '/' not in s:
             R.do('nfs:' + _tx('/' + s), 'nfs')
+        Name, Component = _imports()
+        _fresh(R, 'fresh_nrm1', lambda: Name.normalize([s]))
         return R.out()
     if k == 'num':
         c = R.do('fn:%d:%d' % (case['n'], case['typ']), 'fn')
@@ -636,6 +704,7 @@ def run_impl(case):
         if case['n'] >= 0:
             R.do('fs:' + _tx('seg=%d' % case['n']), 'fs_seg')
         Name, Component = _imports()
+        _fresh(R, 'fresh_fn', lambda: Component.from_number(case['n'], case['typ']))
         for nm_, (short, typ) in _CONVENTION.items():
             R.side('ctor_' + short, lambda: 'ok=' + _hx(getattr(Component, nm_)(case['n'])))
             if case['n'] >= 0:
@@ -710,6 +779,12 @@ def _name_side_oracle(comps, L, D, want, wlen):
             return f'Name.{what} != Name.encode(n)'
     if D.get('enclen') != 'ok=%d' % wlen:
         return 'Name.encoded_length(n) != len(Name.encode(n))'
+    for lab, what in (('fresh_fb', 'Component.from_bytes'), ('fresh_fhex', 'Component.from_hex'), ('fresh_nfs', 'Name.from_str'),
+                      ('fresh_nrs', 'Name.normalize(str)'), ('fresh_nrm', 'Name.normalize(list of str)'), ('fresh_enc', 'Name.encode')):
+        if lab in D and D[lab] != 'ok=same':
+            return f'{what} gives a different answer the second time, after the caller overwrote the first result ({D[lab]})'
+    if n and D.get('fb_arg_reused') != L['c0']:
+        return 'Component.from_bytes(buf, t) changes when the caller reuses buf after the call'
     for lab, what in (('nrm_tuple', 'tuple'), ('nrm_gen', 'generator'), ('nrm_kinds0', 'bytes/bytearray/memoryview/str list'),
                       ('nrm_kinds1', 'bytes/bytearray/memoryview/str list'), ('nrm_kinds2', 'bytes/bytearray/memoryview/str list'),
                       ('nrm_kinds3', 'bytes/bytearray/memoryview/str list'), ('fb_wire', 'from_bytes(wire)'),
@@ -815,6 +890,12 @@ def oracle(case, impl):
         if sorted(_key(n) for n in names) != [_key(names[i]) for i in impl['sorted_idx']]:
             return 'sorting names by their encoded components disagrees with NDN canonical order'
         return None
+    if k in ('uri', 'text', 'num'):
+        for lab, tok in impl.get('side', {}).items():
+            first = {'fresh_fs': 'fs', 'fresh_nfs': 'nfs', 'fresh_nrm1': 'nrm1', 'fresh_fn': 'fn'}.get(lab)
+            if first and _ok(L.get(first)) and tok != 'ok=same':
+                return (f'{lab[6:]}: the same conversion gives a different answer the second time, after the caller overwrote '
+                        f'the first result ({tok})')
     if k == 'uri':
         s = case['s']
         if _ok(L['fs']):
